@@ -55,3 +55,11 @@ package stdlib_contracts
 //@ assumed
 //@ pure
 //@ ensures 0 <= result && result <= 32
+
+//@ package github.com/nspcc-dev/neo-go/pkg/crypto/hash
+//@ import util github.com/nspcc-dev/neo-go/pkg/util
+//@ spec dsha(b seq) util.Uint256
+//@ func DoubleSha256
+//@ assumed
+//@ pure
+//@ ensures result == dsha(data)
